@@ -20,6 +20,12 @@ PREPEND = ("insert", "push_front")
 TAKE = ("take", "replace", "split_off", "drain", "swap")
 
 
+def pointee_origin(body, op):
+    """storage a reference operand points to"""
+    pl = op_place(op)
+    return T.place_origin(body, {"l": pl["l"], "p": list(pl["p"]) + ["*"]}) if pl is not None else None
+
+
 def run(ck):
     f = ck.facts
     ii = ck.body("1", "LoopHandle::insert_idle")
@@ -77,7 +83,12 @@ def run(ck):
         loops = di.loops()
         lp = [(h, blk) for h, blk in loops.items() if d.bb in blk]
         ck.verdict(bool(lp) and all(di.dominates(takes[0].bb, h) and takes[0].bb not in blk for h, blk in lp), "2", "T3-must-precede", di, "take-list-before-loop", "the whole list is taken before the loop starts", "the idle list is not taken before the loop", site=di.where(takes[0].bb))
-        ck.verdict(takes[0].name in ("take", "replace", "split_off") or takes[0].name == "drain", "2", "T6-provenance", di, "take-idiom:%s" % takes[0].name, "recognised take idiom", "unrecognised", site=di.where(takes[0].bb), nontrivial=False)
+        # `mem::swap(&mut *list, &mut buffer)`: the batch is then the buffer (required below to be drained completely)
+        swap_buf = None
+        if takes[0].name == "swap" and len(takes[0].args) == 2:
+            others = [a for a in takes[0].args if not T.path_has(di, a, ".idles")]
+            swap_buf = pointee_origin(di, others[0]) if len(others) == 1 else None
+        ck.verdict(takes[0].name in ("take", "replace", "split_off", "drain") or swap_buf is not None, "2", "T6-provenance", di, "take-idiom:%s" % takes[0].name, "recognised take idiom", "unrecognised", site=di.where(takes[0].bb), nontrivial=False)
         if lp:
             h, blk = lp[0]
             hc = di.call_at(h)
@@ -88,6 +99,12 @@ def run(ck):
                     if r[0] == "call":
                         c2 = di.call_at(r[1])
                         if c2.name == "drain" and T.resolves_to_call(di, c2.args[0], [takes[0].bb]) and "RangeFull" in di.facts.types[op_place(c2.args[1])["t"]]["s"]:
+                            it_ok = True
+            if not it_ok and hc is not None and hc.name == "next" and swap_buf is not None:
+                for r, p_ in di.resolve(hc.args[0]):
+                    if r[0] == "call":
+                        c2 = di.call_at(r[1])
+                        if c2.name == "drain" and "RangeFull" in di.facts.types[op_place(c2.args[1])["t"]]["s"] and pointee_origin(di, c2.args[0]) == swap_buf and di.dominates(takes[0].bb, c2.bb):
                             it_ok = True
             ck.verdict(it_ok, "2", "T6-provenance", di, "iterates-taken-list-in-order", "the loop iterates the taken vector itself, front to back, by value", "the loop does not iterate the taken list in order (reversed / filtered / another collection): %s" % (di.roots_str(hc.args[0]) if hc else "?"), site=di.where(h))
             ck.verdict(hc is not None and any(x in f.types[f.peel_refs(op_place(hc.args[0])["t"])]["s"] for x in ("IntoIter", "Drain")), "2", "T6-provenance", di, "by-value-iteration", "entries are consumed by the iteration (each runs at most once)", "the idle list is not iterated by value: entries are not consumed", site=di.where(h))
@@ -110,7 +127,7 @@ def run(ck):
     for w in wr:
         for cs in T.calls(w, name=("call_once", "call_mut", "call"), self_kind=("param",)):
             n3 += 1
-            tk = [c for c in T.calls(w, name="take") if T.path_has(w, c.args[0], ".opt_cb") or True]
+            tk = [c for c in T.calls(w, name=("take", "replace"))]
             ok = any(T.resolves_to_call(w, cs.args[0], [c.bb]) for c in tk)
             ck.verdict(ok and cs.name == "call_once", "3", "T4-guarded-by", w, "FnOnce-through-Option::take", "the user callback is moved out of its Option before being called (it cannot run twice)", "the user's idle callback is not consumed through Option::take", site=w.where(cs.bb))
     ck.floor("3", "wrapper call sites of the user FnOnce", n3, 1)
@@ -154,5 +171,13 @@ def run(ck):
         cbs = T.calls(od, name=("call_mut", "call_once", "call"), self_kind=("param",))
         for cs in cbs:
             sw = [s for s in T.switches_on_expr(od, lambda e: e[0] == "discr")]
-            ok = any(T.reachable_only_via(od, cs.bb, T.discr_edges(od, s, 1)) for s in sw)
+            # the variant the callback is taken out of (`Some` of an Option, or the occupied variant of a private enum)
+            want = {1}
+            names = {e[4:] for r, p_ in od.resolve(cs.args[0]) for e in p_ or () if isinstance(e, str) and e.startswith(" as ")}
+            for i_, j_, st_ in od.statements():
+                if st_["s"] == "assign" and st_["rv"]["r"] == "use":
+                    for e in (op_place(st_["rv"]["o"]) or {}).get("p", ()):
+                        if isinstance(e, dict) and "d" in e and e.get("n") in names:
+                            want.add(e["d"])
+            ok = any(T.reachable_only_via(od, cs.bb, [e for v in want for e in T.discr_edges(od, s, v)]) for s in sw)
             ck.verdict(ok, "5", "T4-guarded-by", od, "runs-only-if-slot-is-Some", "a cancelled (emptied) slot runs nothing", "dispatch runs without testing the slot", site=od.where(cs.bb))
